@@ -392,47 +392,62 @@ func c20TypeTables(c *Ctx) {
 		}
 		return true
 	})
-	// getType keywords: case "kw": return cty.X, …
+	// getType keywords, from the SSA: the set of keyword spellings call.Name / the keyword can have
+	// at each block (forward propagation through the `== "kw"` tests of the switches); a return of
+	// a cty type variable in a block whose set is {kw} maps kw to that type, a call of a cty
+	// collection constructor in a block whose set contains kw maps kw to that constructor.
 	gprim := map[string]string{}
-	gctor := map[string]string{}
-	ast.Inspect(gtd.Body, func(n ast.Node) bool {
-		cc, ok := n.(*ast.CaseClause)
-		if !ok {
-			return true
-		}
-		for _, ce := range cc.List {
-			kw, ok := constString(gpkg.TypesInfo, ce)
-			if !ok {
-				continue
-			}
-			// first statement of the arm
-			for _, st := range cc.Body {
-				if rs, ok := st.(*ast.ReturnStmt); ok && len(rs.Results) > 0 {
-					if _, seen := gprim[kw]; !seen && strings.HasPrefix(exprStr(rs.Results[0]), "cty.") && !strings.Contains(exprStr(rs.Results[0]), "(") {
-						gprim[kw] = exprStr(rs.Results[0])
-					}
+	gctorSet := map[string]map[string]bool{}
+	gt := c.P.LookupFunc("ext/typeexpr", "getType")
+	if gt == nil {
+		c.CheckerFail("type.tables", "anchor getType (SSA) does not resolve")
+		return
+	}
+	dom := stringTestDomains(gt)
+	for _, b := range gt.Blocks {
+		d := dom[b]
+		for _, ins := range b.Instrs {
+			switch x := ins.(type) {
+			case *ssa.Return:
+				if len(d) != 1 || len(x.Results) == 0 {
+					continue
 				}
-				if ifs, ok := st.(*ast.IfStmt); ok && kw == "any" {
-					for _, s2 := range ifs.Body.List {
-						if rs, ok := s2.(*ast.ReturnStmt); ok && len(rs.Results) > 0 {
-							gprim[kw] = exprStr(rs.Results[0])
-						}
-					}
-				}
-				ast.Inspect(st, func(m ast.Node) bool {
-					if call, ok := m.(*ast.CallExpr); ok {
-						if s := exprStr(call.Fun); s == "cty.List" || s == "cty.Set" || s == "cty.Map" || s == "cty.Object" || s == "cty.Tuple" || s == "cty.ObjectWithOptionalAttrs" {
-							if _, seen := gctor[kw]; !seen && len(cc.List) == 1 {
-								gctor[kw] = strings.TrimPrefix(strings.TrimSuffix(s, "WithOptionalAttrs"), "cty.")
+				if ld, ok := lookThrough(x.Results[0]).(*ssa.UnOp); ok {
+					if g, ok := ld.X.(*ssa.Global); ok && g.Pkg.Pkg.Path() == ctyPath {
+						for kw := range d {
+							if _, seen := gprim[kw]; !seen {
+								gprim[kw] = "cty." + g.Name()
 							}
 						}
 					}
-					return true
-				})
+				}
+			case *ssa.Call:
+				cal := x.Call.StaticCallee()
+				if cal == nil || cal.Pkg == nil || cal.Pkg.Pkg.Path() != ctyPath {
+					continue
+				}
+				switch cal.Name() {
+				case "List", "Set", "Map", "Object", "Tuple", "ObjectWithOptionalAttrs":
+					for kw := range d {
+						if gctorSet[kw] == nil {
+							gctorSet[kw] = map[string]bool{}
+						}
+						gctorSet[kw][strings.TrimSuffix(cal.Name(), "WithOptionalAttrs")] = true
+					}
+				}
 			}
 		}
-		return true
-	})
+	}
+	gctor := map[string]string{}
+	for kw, set := range gctorSet {
+		var names []string
+		for n := range set {
+			names = append(names, n)
+		}
+		sort.Strings(names)
+		gctor[kw] = strings.Join(names, "|")
+	}
+	_ = gpkg
 	for ct, kw := range prim {
 		back := gprim[kw]
 		c.Check(back == ct, "type.tables", "ext/typeexpr:primitive["+kw+"]", tsd.Pos(), ct+" → "+kw+" → "+back,
@@ -530,6 +545,117 @@ func c20TypeTables(c *Ctx) {
 	}
 	c.Floor("type.tables bare names", n, 1, "attribute name in object({…})")
 	_ = packages.NeedName
+}
+
+// stringTestDomains: for every block of fn, the set of string constants a tested string can still
+// be equal to there, following the `x == "k"` tests (true edge: {k}; false edge: without k),
+// computed separately for each tested subject (the same SSA value or loads of the same cell) and
+// reported only for the subjects that actually constrain the block. "\x00" stands for any other
+// spelling and is removed from the result.
+func stringTestDomains(fn *ssa.Function) map[*ssa.BasicBlock]map[string]bool {
+	type test struct {
+		subj ssa.Value
+		k    string
+		eq   bool
+	}
+	testOf := func(b *ssa.BasicBlock) (test, bool) {
+		iff, ok := lastIf(b)
+		if !ok {
+			return test{}, false
+		}
+		bo, ok := iff.Cond.(*ssa.BinOp)
+		if !ok || (bo.Op != token.EQL && bo.Op != token.NEQ) || !isBasicString(bo.X.Type()) {
+			return test{}, false
+		}
+		for _, pr := range [][2]ssa.Value{{bo.X, bo.Y}, {bo.Y, bo.X}} {
+			if cn, ok := pr[1].(*ssa.Const); ok && cn.Value != nil && cn.Value.Kind() == constant.String {
+				return test{pr[0], constant.StringVal(cn.Value), bo.Op == token.EQL}, true
+			}
+		}
+		return test{}, false
+	}
+	var groups []ssa.Value // representatives
+	groupOf := func(v ssa.Value) int {
+		for i, g := range groups {
+			if g == v || sameCell(g, v) {
+				return i
+			}
+		}
+		groups = append(groups, v)
+		return len(groups) - 1
+	}
+	tests := map[*ssa.BasicBlock]test{}
+	gidx := map[*ssa.BasicBlock]int{}
+	for _, b := range fn.Blocks {
+		if t, ok := testOf(b); ok {
+			tests[b] = t
+			gidx[b] = groupOf(t.subj)
+		}
+	}
+	result := map[*ssa.BasicBlock]map[string]bool{}
+	for g := range groups {
+		universe := map[string]bool{"\x00": true}
+		for b, t := range tests {
+			if gidx[b] == g {
+				universe[t.k] = true
+			}
+		}
+		dom := map[*ssa.BasicBlock]map[string]bool{}
+		cp := func(m map[string]bool) map[string]bool {
+			o := map[string]bool{}
+			for k := range m {
+				o[k] = true
+			}
+			return o
+		}
+		dom[fn.Blocks[0]] = cp(universe)
+		for changed := true; changed; {
+			changed = false
+			for _, b := range fn.Blocks {
+				in := dom[b]
+				if in == nil {
+					continue
+				}
+				t, isTest := tests[b]
+				isTest = isTest && gidx[b] == g
+				for si, su := range b.Succs {
+					out := in
+					if isTest {
+						if (si == 0) == t.eq { // subject == k on this edge
+							out = map[string]bool{}
+							if in[t.k] {
+								out[t.k] = true
+							}
+						} else {
+							out = cp(in)
+							delete(out, t.k)
+						}
+					}
+					if dom[su] == nil {
+						dom[su] = map[string]bool{}
+					}
+					for x := range out {
+						if !dom[su][x] {
+							dom[su][x] = true
+							changed = true
+						}
+					}
+				}
+			}
+		}
+		for b, d := range dom {
+			if d["\x00"] || len(d) == len(universe) {
+				continue // this subject does not pin the spelling here
+			}
+			if result[b] == nil {
+				result[b] = map[string]bool{}
+			}
+			for k := range d {
+				result[b][k] = true
+			}
+		}
+	}
+	return result
 }
 
 // R6
